@@ -63,6 +63,27 @@ class ProbeInfo(DefaultTransitionInfo):
         return DefaultTransitionInfo(self.error_code, self.acceptance_prob, self.position_moved)
 
 
+@register_dataclass_as_pytree
+@dataclass
+class ProbeInfoD(DefaultTransitionInfo):
+    """the same record, but `minimize` is the one inherited from the library's DefaultTransitionInfo"""
+
+    error_code: int
+    acceptance_prob: float
+    position_moved: int
+    time: int = 0
+    time_in_epoch: int = 0
+    etype: int = 0
+    nth: int = 0
+    duration: int = 0
+    thinning: int = 0
+    adaptive: int = 0
+    key: jnp.ndarray | None = None
+    ks: dict | None = None
+    pre: jnp.ndarray | None = None
+    post: jnp.ndarray | None = None
+
+
 def _key_words(key):
     return jax.random.key_data(key).astype(jnp.uint32) if jnp.issubdtype(key.dtype, jax.dtypes.prng_key) else jnp.asarray(key).astype(jnp.uint32)
 
@@ -106,7 +127,8 @@ def unpack_ks(raw):
 class ProbeKernel(TransitionMixin, TuningMixin):
     """Deterministic, fully self-reporting kernel (test side; implements the Kernel protocol)."""
 
-    error_book: ClassVar[dict[int, str]] = {0: "no errors", 1: "probe error one", 2: "probe error two", 7: "probe error seven"}
+    error_book: ClassVar[dict[int, str]] = {0: "no errors", 1: "probe error one", 2: "probe error two", 7: "probe error seven",
+                                            256: "probe error two hundred and fifty-six", 300: "probe error three hundred"}
     needs_history: ClassVar[bool] = False
     identifier: str = ""
 
@@ -247,7 +269,7 @@ class ProbeKernel(TransitionMixin, TuningMixin):
             code = self.err_table[cid, jnp.clip(jnp.asarray(epoch.time).astype(jnp.int32), 0, self.err_table.shape[1] - 1)]
         else:
             code = jnp.int32(0)
-        info = ProbeInfo(
+        info = (ProbeInfoD if getattr(self, "inherit_minimize", False) else ProbeInfo)(
             error_code=code, acceptance_prob=jnp.float32(1.0), position_moved=jnp.int32(1),
             time=jnp.int32(epoch.time), time_in_epoch=jnp.int32(epoch.time_in_epoch), etype=jnp.int32(epoch.config.type),
             nth=jnp.int32(epoch.nth_epoch), duration=jnp.int32(epoch.config.duration), thinning=jnp.int32(epoch.config.thinning),
@@ -264,7 +286,8 @@ class ProbeKernel(TransitionMixin, TuningMixin):
 
 class ProbeKernelH(ProbeKernel):
     needs_history: ClassVar[bool] = True
-    error_book: ClassVar[dict[int, str]] = {0: "no errors", 1: "probe-H error one", 2: "probe-H error two", 7: "probe-H error seven"}
+    error_book: ClassVar[dict[int, str]] = {0: "no errors", 1: "probe-H error one", 2: "probe-H error two", 7: "probe-H error seven",
+                                            256: "probe-H error two hundred and fifty-six", 300: "probe-H error three hundred"}
 
 
 # =====================================================================================
@@ -354,7 +377,7 @@ def err_table(spec, kk):
     if not e or e["mode"] == "none":
         return tab
     rng = np.random.default_rng([e["seed"], 19])
-    codes = rng.choice([1, 2, 7], size=tab.shape)
+    codes = rng.choice([1, 2, 7, 256, 300] if e.get("big") else [1, 2, 7], size=tab.shape)
     dens = rng.random(tab.shape) < {"dense": 0.5, "sparse": 0.08}.get(e["mode"], 0.35)
     tab = np.where(dens, codes, 0).astype(np.int32)
     # phase masks
@@ -411,6 +434,7 @@ def make_kernels(spec, log, with_errs=False):
         cls = ProbeKernelH if kk["hist"] else ProbeKernel
         tab = err_table(spec, kk) if with_errs and kk.get("errs") else None
         kernels.append(cls(kk["keys"], kk["a"], kk["c"], all_keys=POOL, err_table=tab, log=log, ident=kernel_ids(spec)[i]))
+        kernels[-1].inherit_minimize = spec.get("minimize") == "inherit"
     return kernels
 
 
@@ -425,7 +449,8 @@ def make_engine(spec, epochs=None, chunk=None, log=None, with_errs=False, pertur
     seeds = jax.random.split(jax.random.PRNGKey(spec["seed"] if seed is None else seed), spec["chains"])
     eng = gs.Engine(seeds=seeds, model_states=initial_states(spec, perturb), kernel_sequence=KernelSequence(kernels),
                     epoch_configs=cfgs, jitted_sample_duration=spec["chunk"] if chunk is None else chunk, model=model,
-                    position_keys=tracked_keys(spec), store_kernel_states=spec.get("store_ks", False), show_progress=False)
+                    position_keys=tracked_keys(spec), store_kernel_states=spec.get("store_ks", False), show_progress=False,
+                    minimize_transition_infos=bool(spec.get("minimize")))
     return eng, log, kernels
 
 
